@@ -16,6 +16,20 @@ Theorem C17_order : forall s b s' ev, send_request s b = (s', ev) ->
 Proof. exact send_request_order. Qed.
 Print Assumptions C17_order.
 
+(* the client timeout elapsing while unusable hosts are skipped (time passes inside a slow borrow_connection): the walk stops
+   right there -- the rest of the plan stays untried and NO NoHostAvailable is reported; the request times out (once a
+   connection was ever borrowed) or the timeout handler re-schedules itself *)
+Theorem C17_timeout_stops_the_walk : forall s b s' ev rest, send_request s b = (s', ev) ->
+  plan s' = rest -> rest <> [] -> fin_exc s' <> Some XNoHost \/ fin_exc s = Some XNoHost.
+Proof.
+  intros s b s' ev rest H Pr Rn.
+  destruct (walk_exc _ _ _ _ H) as [G|[(x & G & N)|(G & Q)]].
+  - destruct (fin_exc s) as [[]|] eqn:F; try (left; rewrite G; discriminate). right; reflexivity.
+  - left. rewrite G. intros E. inversion E; subst. apply N; reflexivity.
+  - exfalso. rewrite Q in Pr. apply Rn. symmetry. exact Pr.
+Qed.
+Print Assumptions C17_timeout_stops_the_walk.
+
 (* over a whole history: the plan is consumed front to back, and the hosts that got a message because the plan was
    walked (initial send, RETRY_NEXT_HOST, speculative execution, fall-through after an unusable pool) form, in the order
    sent, a subsequence of the load balancer's plan *)
@@ -36,8 +50,12 @@ Print Assumptions C17_no_repeat.
 (* ... every other message is the one of the executor task just run: the same-host retry, the PREPARE after UNPREPARED,
    or the re-send after PREPARED (C19) ... *)
 Theorem C17_other_sends_are_tasks : forall c s o s' ev h m cz, step c s o = (s', ev) -> In (Sent h m cz) ev ->
-  plan_msg m cz \/ exists k t, o = Run k /\ nth_error (queue s) k = Some t /\ task_sends s t h m cz
-                            /\ pool_of s (task_host t) = PHealthy.
+  plan_msg m cz \/ (exists k t, o = Run k /\ nth_error (queue s) k = Some t /\ task_sends s t h m cz
+                            /\ pool_of s (task_host t) = PHealthy)
+  \/ (* executor-first schedule: the retry task ran inside the step that took the decision *)
+     (exists i k tag dcl reuse a, o = Resp i (RRetryable k tag) /\ inline_retry c = true /\ nth_error (attempts s) i = Some a /\
+        task_sends (bump_counters (tick_consult (set_attempts s (mark_done i (attempts s)))) dcl) (TRetry reuse (a_host a)) h m cz
+        /\ pool_of s (a_host a) = PHealthy).
 Proof. exact step_sent. Qed.
 Print Assumptions C17_other_sends_are_tasks.
 
@@ -48,14 +66,27 @@ Theorem C17_retry_task_needs_decision : forall c s o s' ev t, step c s o = (s', 
 Proof. exact step_queue. Qed.
 Print Assumptions C17_retry_task_needs_decision.
 
-(* NoHostAvailable is raised only by a send_request that ran off the end of the plan, and carries _errors of that moment *)
-Theorem C17_exhaustion : forall c s o s' ev errs, step c s o = (s', ev) -> fin_exc s' = Some (XNoHost errs) ->
-  fin_exc s = Some (XNoHost errs) \/ (errs = errors s' /\ plan s' = []).
+(* NoHostAvailable is raised only by a send_request that ran off the end of the plan (never by the branch that notices the
+   client timeout while walking: that one calls _on_timeout and returns).  XNoHost has no payload: NoHostAvailable.errors IS the
+   future's live _errors dict, i.e. `errors` of the current state. *)
+Theorem C17_exhaustion : forall c s o s' ev, step c s o = (s', ev) -> fin_exc s' = Some XNoHost ->
+  fin_exc s = Some XNoHost \/ plan s' = [].
 Proof. exact nohost_only_when_exhausted. Qed.
 Print Assumptions C17_exhaustion.
 
 (* every host ever mentioned -- message, attempt, executor task, _errors key (hence every NoHostAvailable.errors key) --
    was taken from the plan *)
+(* "listing every attempted host" (first page fetch): when a request that has no outcome yet fails with NoHostAvailable, every
+   host of the plan is a key of the live _errors (= NoHostAvailable.errors) right after that step, or still has something open
+   (an unanswered attempt of a speculative execution, a queued executor task) *)
+Theorem C17_exhaustion_lists_every_host : forall c lb target pl cl idem hasp maxa ks ops s evs o s' ev,
+  no_page ops = true -> is_next_page o = false ->
+  exec c (init lb target pl cl idem hasp maxa ks) ops = (s, evs) -> fin_res s = None -> fin_exc s = None ->
+  step c s o = (s', ev) -> fin_exc s' = Some XNoHost ->
+  forall h, In h (make_plan lb target) -> In h (keys (errors s')) \/ In h (open_hosts s').
+Proof. exact exhaustion_covers. Qed.
+Print Assumptions C17_exhaustion_lists_every_host.
+
 Theorem C17_errors_only_plan_hosts : forall c lb target pl cl idem hasp maxa ks ops s evs x,
   exec c (init lb target pl cl idem hasp maxa ks) ops = (s, evs) ->
   In x (hosts_of s evs) -> In x (consumed s) /\ (no_page ops = true -> In x (make_plan lb target)).
@@ -93,6 +124,17 @@ Theorem C17_replan_master_nodup : forall m p, NoDup p -> NoDup (replan_master m 
 Proof. exact replan_master_ok. Qed.
 Print Assumptions C17_replan_master_nodup.
 
+(* executor-first schedule (the executor runs the retry before _handle_retry_decision records the failure): the failed host
+   is recorded AFTER the plan was exhausted, and NoHostAvailable -- whose errors are the live _errors -- still lists it *)
+Example C17_executor_first_lists_failed_host :
+  let c := {| pol := scripted [(DNextHost, None)]; fut_ps := None; known := []; pv := 4; tgt := None; inline_retry := true |} in
+  let s0 := init [0; 1] None [(0, PHealthy); (1, PMissing)] (Some 1) false false 0 None in
+  let '(s, evs) := exec c s0 [Start; Resp 0%nat (RRetryable KOverloaded 7)] in
+  fin_exc s = Some XNoHost /\ errors s = [(1, EDown); (0, EResp KOverloaded 7)] /\
+  evs = [Sent 0 (MOrig (Some 1)) CPlan; Consult 0 0 KOverloaded 7 0 (Some 1) DNextHost None; ErrSet 1 EDown;
+         ErrSet 0 (EResp KOverloaded 7)].
+Proof. vm_compute. repeat split. Qed.
+
 (* explicit host target: every message of every page fetch goes to that host *)
 Theorem C17_target_only : forall c lb pl cl idem hasp maxa ks ops s evs h, tgt c = Some h ->
   exec c (init lb (Some h) pl cl idem hasp maxa ks) ops = (s, evs) ->
@@ -103,9 +145,9 @@ Print Assumptions C17_target_only.
 (* non-vacuity: plan [2;0;1], host 2 shut down, host 0 healthy; a read timeout from 0 answered RETRY_NEXT_HOST moves on
    to host 1, whose pool is missing: NoHostAvailable lists 2 (skipped), 0 (failed) and 1 (skipped) *)
 Example C17_nonvacuous :
-  let c := {| pol := scripted [(DNextHost, None)]; fut_ps := None; known := []; pv := 4; tgt := None |} in
+  let c := {| pol := scripted [(DNextHost, None)]; fut_ps := None; known := []; pv := 4; tgt := None; inline_retry := false |} in
   let s0 := init [2; 0; 1] None [(0, PHealthy); (1, PMissing); (2, PShutdown)] (Some 1) false false 0 None in
   let '(s, evs) := exec c s0 [Start; Resp 0%nat (RRetryable KReadTimeout 7); Run 0%nat] in
   plan_sends evs = [0] /\
-  fin_exc s = Some (XNoHost [(2, EShutdown); (0, EResp KReadTimeout 7); (1, EDown)]) /\ consumed s = [2; 0; 1].
+  fin_exc s = Some XNoHost /\ errors s = [(2, EShutdown); (0, EResp KReadTimeout 7); (1, EDown)] /\ consumed s = [2; 0; 1].
 Proof. vm_compute. repeat split. Qed.
